@@ -69,9 +69,12 @@ Higher(new, old) == Prec(new) > Prec(old)
 NoPlugin == [present |-> FALSE, ver |-> 0, files |-> {}]
 
 (* a source: [ver, meta : "ok"|"invalid"|"misnamed", shape : "file"|"dir", cand : "exec"|"nonexec"|"two"|"none",
-              extras : Seq of extra file atoms, subdir : BOOLEAN, overwrite : BOOLEAN] *)
+              extras : Seq of extra file atoms, subdir : BOOLEAN, overwrite : BOOLEAN, loc : "elsewhere"|"installed"] *)
 CandLike == {"cand-before", "cand-after"}      \* extra NON-executable files whose names have the plugin file-name format
-Usable(src) == /\ src.cand \in {"exec", "nonexec"}        \* exactly one candidate (a non-executable one in a directory is made executable)
+(* src.loc = "installed": the source IS the installed plugin - its own directory or executable below the plugin root.  Such a
+   source is unusable (the plugin cannot be replaced by itself) and, like every refused installation, leaves the plugin alone *)
+Usable(src) == /\ src.loc = "elsewhere"
+               /\ src.cand \in {"exec", "nonexec"}        \* exactly one candidate (a non-executable one in a directory is made executable)
                /\ (src.shape = "file" => src.cand = "exec")
                   \* a non-executable candidate is taken only if it is the only file of that name format; an executable one wins over such files
                /\ ((src.cand = "nonexec" /\ src.shape = "dir") => Range(src.extras) \cap CandLike = {})
